@@ -114,6 +114,20 @@ def ctx_pgather_in_optional(b):
     return ('seq', ('opt', ('seq', ('pgather', T2, seq(b[0])), T1)), *b[1]), []
 
 
+def ctx_closure_in_optional(b):
+    # [ {x} ]: the closure fails once a committed iteration fails, and only the optional around it takes that back
+    # ([x] == B -> x | (): the cut stays inside B)
+    return ('seq', ('opt', ('clo', seq(b[0]))), *b[1]), []
+
+
+def ctx_optional_in_optional(b):
+    return ('seq', ('opt', ('opt', seq(b[0]))), *b[1]), []
+
+
+def ctx_join_in_optional(b):
+    return ('seq', ('opt', ('join', T2, seq(b[0]))), *b[1]), []
+
+
 def expansion(name, b):
     """The documentation's own equivalences as grammars (docs/syntax.rst, section on ~):
     [x] == B -> x | ();  {x} == B -> x B | ();  {x}+ == B -> x B | x.  Returns (start exp, rules) or None."""
@@ -136,6 +150,8 @@ CONTEXTS = [
     ('nested-choice', 3, ctx_nested_choice), ('opt-in-closure', 2, ctx_opt_in_closure),
     ('rule', 3, ctx_rule), ('rule-body', 2, ctx_rule_body), ('closure-in-choice', 2, ctx_closure_in_choice),
     ('pclosure-in-choice', 2, ctx_pclosure_in_choice),
+    ('closure-in-optional', 2, ctx_closure_in_optional), ('optional-in-optional', 2, ctx_optional_in_optional),
+    ('join-in-optional', 2, ctx_join_in_optional),
 ]
 
 # which body slots may receive cuts, per context (tails that are spliced into the
@@ -143,7 +159,7 @@ CONTEXTS = [
 CUT_SLOTS = {
     'choice': (0, 1), 'optional': (0,), 'closure': (0,), 'pclosure': (0,), 'join': (0,), 'gather': (0,),
     'nested-choice': (0, 1), 'opt-in-closure': (0,), 'rule': (0, 1), 'rule-body': (0,), 'closure-in-choice': (0,),
-    'pclosure-in-choice': (0,),
+    'pclosure-in-choice': (0,), 'closure-in-optional': (0,), 'optional-in-optional': (0,), 'join-in-optional': (0,),
 }
 
 
